@@ -20,7 +20,7 @@ RULE = (
     "(a) history independence, Hypothesis rule-based state machine end-to-end: one generated bootstrap election; the "
     "reference summary comes from a fresh client with the canonical request [top level, unit]; rules run(aggregates) "
     "with any ordered list containing the top level plus finer levels (county, classification, district-county) with/"
-    "without unit, summary(weights, base, alphas), fresh_client(); after every summary: it neither raises nor differs "
+    "without unit, summary(weights, base, levels = all / first / last requested level / another level), fresh_client(); after every summary: it neither raises nor differs "
     "from the reference for the same (weights, base, alphas); a weight dict of the wrong size raises the model error; a "
     "summary before any run raises the client error. (b) range / ordering / composition, model level with generated "
     "draw matrices: lower <= pred <= upper for every level; hard threshold: base <= lower, upper <= base + total "
@@ -147,15 +147,18 @@ class SummaryHistories(RuleBasedStateMachine):
             ctx.violation("summary_before_run_not_rejected", f"{key}", {"case": self.case, "history": self.trace}, sig="before_run")
 
     @precondition(lambda self: self.ran)
-    @rule(kind=st.sampled_from(["none", "ints", "floats"]), base=st.sampled_from([0, 3, 100.5]), wrong_size=st.integers(0, 5))
-    def summary(self, kind, base, wrong_size):
+    @rule(kind=st.sampled_from(["none", "ints", "floats"]), base=st.sampled_from([0, 3, 100.5]), wrong_size=st.integers(0, 5), levels=st.sampled_from(["all", "all", "first", "last", "another"]))
+    def summary(self, kind, base, wrong_size, levels):
         ctx = SummaryHistories.ctx
         alphas = self.case["req"]["alphas"]
+        # successive summary requests on one client may ask for different levels (seats at one level, electoral votes
+        # at another): what an earlier request asked for must not show in a later one
+        alphas = {"all": alphas, "first": alphas[:1], "last": alphas[-1:], "another": [0.6]}[levels]
         refkey = self._reference(kind, base, alphas)
         if refkey is None or self.contests is None:
             return
         w = self._weights(kind, self.contests)
-        stored = {"case": self.case, "history": self.trace + [("summary", [kind, base])]}
+        stored = {"case": self.case, "history": self.trace + [("summary", [kind, base, levels])]}
         if wrong_size == 0 and w is not None:
             w = dict(w)
             w["ZZ_extra"] = 1
@@ -167,7 +170,7 @@ class SummaryHistories(RuleBasedStateMachine):
                 ctx.violation("wrong_size_not_rejected", f"{len(w)} weights for {len(self.contests)} contests: {key}", stored, sig="wrong_size")
             return
         key, df = summary_key(self.client, w, base, alphas)
-        self.trace.append(("summary", [kind, base]))
+        self.trace.append(("summary", [kind, base, levels]))
         if df is not None and not self.failed:
             # the table the client returns must carry, per level, the bounds the model computes for that level
             try:
@@ -384,7 +387,10 @@ def replay(case, ctx):
                 client = ModelClient()
                 ran = False
             elif step == "summary" and ran:
-                kind, base = arg
+                kind, base = arg[0], arg[1]
+                levels = arg[2] if len(arg) > 2 else "all"  # histories stored before the levels varied per call
+                al = base_case["req"]["alphas"]
+                al = {"all": al, "first": al[:1], "last": al[-1:], "another": [0.6]}[levels]
                 c = copy.deepcopy(base_case)
                 c["req"]["aggregates"] = list(top) + ["unit"]
                 rr = run_case(c)
@@ -392,8 +398,8 @@ def replay(case, ctx):
                     return
                 names = ["_".join(map(str, k)) for k in rr.tables["state_data"][top].itertuples(index=False, name=None)]
                 w = SummaryHistories._weights(kind, names)
-                refkey = summary_key(rr.client, w, base, base_case["req"]["alphas"])[0]
-                key = summary_key(client, w, base, base_case["req"]["alphas"])[0]
+                refkey = summary_key(rr.client, w, base, al)[0]
+                key = summary_key(client, w, base, al)[0]
                 if key != refkey:
                     ctx.violation("summary_depends_on_history", f"replayed history: {key} vs canonical {refkey}", case, sig="history|" + (key[1] if key[0] == "exc" else "value"))
                     return
